@@ -73,19 +73,50 @@ def d2l(d):
     return out
 
 
+def scramble(d):
+    """overwrite a returned mapping in place: a later call must not see it (results are fresh objects)"""
+    try:
+        d.clear()
+        d['zz-probe'] = 'scrambled'
+    except Exception:
+        pass
+
+
+def pdata(text):
+    """get_paragraph_data(text), asked twice with the first answer overwritten in between"""
+    d = debcon.get_paragraph_data(text)
+    o = d2l(d)
+    if isinstance(d, dict):
+        scramble(d)
+        if d2l(debcon.get_paragraph_data(text)) != o:
+            return Exc('ResultAliased')
+    return o
+
+
+def psdata(text):
+    ds = list(debcon.get_paragraphs_data(text))
+    o = [d2l(d) for d in ds]
+    for d in ds:
+        if isinstance(d, dict):
+            scramble(d)
+    if [d2l(d) for d in debcon.get_paragraphs_data(text)] != o:
+        return Exc('ResultAliased')
+    return o
+
+
 def observe(op, inp):
     if op == 'C08m':
         text = ''.join('%s: %s\n' % (n, v) for n, v in inp)
         try:
-            return d2l(debcon.get_paragraph_data(text))
+            return pdata(text)
         except Exception as e:
             return Exc(type(e).__name__)
     try:
-        a = d2l(debcon.get_paragraph_data(inp))
+        a = pdata(inp)
     except Exception as e:
         a = Exc(type(e).__name__)
     try:
-        b = [d2l(d) for d in debcon.get_paragraphs_data(inp)]
+        b = psdata(inp)
     except Exception as e:
         b = Exc(type(e).__name__)
     return [a, b]
